@@ -233,6 +233,7 @@ ReadG(n, v) == <<
   <<"c09_read_after_write", (Stored(n) /\ n \in stale) => <<"write", n>> \in done>>,
   \* C09: an out-of-date dependent source is read only after the calls it depends on have run
   <<"c09_depsrc_after_deps", (RegOf(n) = "src" /\ n \in stale) => \A p \in Deps(n) : (Kind(p) = "call" /\ ~Reg(p)) => <<"call", p>> \in done>>,
+  <<"c09_depsrc_after_stored_deps", (RegOf(n) = "src" /\ n \in stale) => \A p \in Deps(n) : (Stored(p) /\ p \in stale) => <<"write", p>> \in done>>,
   <<"read_consumed", n \in Range(out) \/ \E c \in Nodes : n \in ArgSet(c) /\ <<"call", c>> \in todo>>,   \* C05
   <<"read_returns_content", mt[n] # 0 /\ v = Norm(val[n])>> >>
 
@@ -385,7 +386,7 @@ CompletedWritesKept == SourcesPresent => \A n \in wr : n \notin StaleSet(mt, fre
 \* checked through `PlanOrderSufficient` below)
 PlanOrderG(x) == PmPreds(x) \subseteq done
 C09Clauses(gs) == {i \in DOMAIN gs : gs[i][1] \in {"c09_arg_read_back", "c09_arg_written_first", "c09_dep_written_first",
-                                                     "c09_read_after_write", "c09_depsrc_after_deps", "c09_upstream_written_first"}}
+                                                     "c09_read_after_write", "c09_depsrc_after_deps", "c09_depsrc_after_stored_deps", "c09_upstream_written_first"}}
 PlanOrderSufficient ==
   phase = "run" => \A n \in Nodes :
      /\ (<<"call", n>> \in todo \ begun /\ PlanOrderG(<<"call", n>>)) => \A i \in C09Clauses(StartG(n)) : StartG(n)[i][2]
